@@ -19,6 +19,7 @@ import BroodModel.Generated.Tables
 import BroodModel.Ctor
 import BroodModel.Programs
 import BroodModel.Fault
+import BroodModel.Churn
 
 open Brood
 
@@ -137,18 +138,6 @@ def chainRun (k : Kinds) (id : Ident) :
       | .ok _ => chainRun k id w rest drops (reads ++ ["n"])
       | .ub e => .ub e
 
-/-- `churn id n`: `n` times remove the (component-less) entity and insert a new one — the slot's
-generation counter is driven up by `n` (C02: no identifier may come back). -/
-def churnRun : Nat → World → Ident → Out (World × Ident)
-  | 0, w, id => .ok (w, id)
-  | n + 1, w, id =>
-    match w.remove id with
-    | .ub e => .ub e
-    | .ok (w1, _) =>
-      match w1.insert [] [] with
-      | .ub e => .ub e
-      | .ok (w2, id2) => churnRun n w2 id2
-
 /-- Run one op on the model.  Returns the new state and the result text (without the `r `). -/
 def runOp (st : St) (wi : Nat) (name : String) (args : List String) : St × String :=
   let k := st.kinds
@@ -247,7 +236,7 @@ def runOp (st : St) (wi : Nat) (name : String) (args : List String) : St × Stri
     | some id, some n =>
       withW fun w =>
         if !(w.hasEntry id) then (st, "none") else
-        match churnRun n w id with
+        match w.churn n id with
         | .ok (w', last) => (st.setW wi (some w'), s!"ok id={last.index}.{last.gen}")
         | .ub e => (st, ubStr e)
     | _, _ => bad
